@@ -28,7 +28,13 @@ def path_contents(rng, thorough):
         add('weak-skew-pair', wb + wb[::-1][:60000])
     # literal counts around the size-format thresholds (no matches: bytes over a wide alphabet without repeats of 5)
     for n in (1023, 1024, 1025, 1026, 16383, 16384, 16385):
-        add('literals-%d' % n, encgen.literals(rng, n, 'skew'))
+        add('literals-%d' % n, encgen.no_repeat_skewed(rng, n))
+        add('literals-%d-after-block' % n, bytes([3]) * SLICE + encgen.no_repeat_skewed(rng, n))
+    # a block whose literals do not pay for a Huffman table (stored raw inside a compressed block), then a block with the
+    # same code-length order whose literals do
+    for k, times in ((200, 6), (128, 10), (256, 5)):
+        b1, b2 = encgen.flat_then_skew(rng, k, times)
+        add('flat-then-skew-%d' % k, b1 + b2)
     # > 128 distinct symbols (FSE-compressed weights or none), few symbols (direct weights)
     add('wide-alphabet', encgen.literals(rng, 40000, 'wide'))
     add('two-symbols', encgen.literals(rng, 5000, 'two'))
